@@ -200,151 +200,4 @@ Section Loops.
       cbn [andb drop skipn]. apply (Hcommon l2 Hl2).
   Qed.
 
-  (* ---- QDict.parse's while loop ---- *)
-  Lemma parse_token_lead_blank b s : all_space b = true -> s <> [] -> parse_token (b ++ s) = parse_token s.
-  Proof.
-    intros Hb Hs. unfold parse_token.
-    replace (is_empty (b ++ s)) with false by (destruct b; [destruct s; [congruence|reflexivity]|reflexivity]).
-    replace (is_empty s) with false by (destruct s; [congruence|reflexivity]).
-    unfold strip. rewrite lstrip_app_space by assumption. reflexivity.
-  Qed.
-
-  Lemma parse_dict_skip_comma f l1 l2 s e c0 x (acc : list (str * qtoken)) :
-    acc <> [] -> all_space l1 = true -> all_space l2 = true -> all_space e = true ->
-    s = c0 :: x -> is_space c0 = false -> (c0 =? c_comma) = false -> last_nonspace s = true ->
-    parse_dict md ns (S f) ((l1 ++ [c_comma] ++ l2) ++ s ++ e) acc = parse_dict md ns (S f) (l2 ++ s ++ e) acc.
-  Proof.
-    intros Hacc Hl1 Hl2 He Es Hc0 Hcm Hl. cbn [parse_dict].
-    assert (Hfs : first_nonspace s = true) by (subst s; cbn; rewrite Hc0; reflexivity).
-    assert (E1 : strip ((l1 ++ [c_comma] ++ l2) ++ s ++ e) = [c_comma] ++ l2 ++ s).
-    { replace ((l1 ++ [c_comma] ++ l2) ++ s ++ e) with (l1 ++ ([c_comma] ++ l2 ++ s) ++ e) by reassoc.
-      rewrite strip_tok; [rewrite rstrip_all_space by assumption; apply app_nil_r|assumption|reflexivity|].
-      rewrite !app_assoc. rewrite last_nonspace_app; [assumption|subst s; discriminate]. }
-    assert (E2 : strip (l2 ++ s ++ e) = s).
-    { rewrite strip_tok by assumption. rewrite rstrip_all_space by assumption. apply app_nil_r. }
-    rewrite E1, E2.
-    assert (N1 : [c_comma] ++ l2 ++ s <> []) by discriminate.
-    assert (N2 : s <> []) by (subst s; discriminate).
-    rewrite (ltb_length_pos _ N1), (ltb_length_pos _ N2).
-    assert (F2 : first_char s = Ok c0) by (subst s; reflexivity). rewrite F2.
-    cbn [app first_char bind]. rewrite (ltb_length_pos acc Hacc), Hcm.
-    replace (c_comma =? c_comma) with true by reflexivity. cbn [andb drop skipn].
-    rewrite parse_token_lead_blank by assumption. reflexivity.
-  Qed.
-
-  Definition prd (pe : list nat) (e : (Z * str) * term) : str :=
-    str_txt (fst (fst e)) (snd (fst e)) ++ lay pe 0%nat ++ [c_colon] ++ lay pe 1%nat ++ txt (0%nat :: pe) (snd e).
-  Definition entry_tok (e : (Z * str) * term) : str * qtoken := (snd (fst e), tok_of ns (snd e)).
-  Definition entry_wf (e : (Z * str) * term) : Prop := wf_str (fst (fst e)) (snd (fst e)) /\ wf md (snd e).
-
-  Lemma prd_edges pe e : entry_wf e -> first_nonspace (prd pe e) = true /\ last_nonspace (prd pe e) = true.
-  Proof.
-    intros [Hs Hv]. unfold prd. destruct (txt_edges lay md (snd e) (0%nat :: pe) Hv) as [Vf Vl].
-    split.
-    - destruct Hs as ([E|E] & _); rewrite E; reflexivity.
-    - rewrite !app_assoc. rewrite last_nonspace_app; [assumption|]. apply (txt_nonempty lay md). assumption.
-  Qed.
-
-  Lemma parse_dict_exact d : Forall (fun e => P (snd e)) d -> Forall entry_wf d -> d <> [] ->
-    forall p i b e acc fuel, all_space b = true -> all_space e = true ->
-    keys_distinct (map (fun x => snd (fst x)) d) ->
-    (forall x, In x d -> ~ In (snd (fst x)) (map fst acc)) ->
-    (2 * length (b ++ sep_core lay prd p i d ++ e) + 2 <= fuel)%nat ->
-    parse_dict md ns fuel (b ++ sep_core lay prd p i d ++ e) acc = Ok (acc ++ map entry_tok d).
-  Proof.
-    induction d as [|a rest IH]; [congruence|]. intros HP Hw _ p i b e acc fuel Hb He Hkd Hka Hf.
-    inversion HP as [|? ? Pa Prest]; subst. inversion Hw as [|? ? Wa Wrest]; subst.
-    destruct fuel as [|f]; [lia|].
-    destruct a as [[q k] v]. destruct Wa as [Ws Wv]. cbn [fst snd] in *.
-    destruct Ws as (Hq & Hek & Hsemi).
-    set (pe := (i :: p)). set (K := str_txt q k). set (c1 := lay pe 0%nat). set (c2 := lay pe 1%nat).
-    set (V := txt (0%nat :: pe) v).
-    assert (Hc1 : all_space c1 = true) by apply Hlay. assert (Hc2 : all_space c2 = true) by apply Hlay.
-    destruct (txt_edges lay md v (0%nat :: pe) Wv) as [Vf Vl]. fold V in Vf, Vl.
-    pose proof (txt_nonempty lay md v (0%nat :: pe) Wv) as Vn. fold V in Vn.
-    set (R := match rest with
-              | [] => []
-              | _ => lay p (2 * i + 2)%nat ++ [c_comma] ++ lay p (2 * i + 3)%nat ++ sep_core lay prd p (S i) rest
-              end).
-    assert (Ec : sep_core lay prd p i (((q, k), v) :: rest) = K ++ c1 ++ [c_colon] ++ c2 ++ V ++ R).
-    { cbn [sep_core]. unfold prd at 1. cbn [fst snd]. fold pe K c1 c2 V. fold R. reassoc. }
-    rewrite Ec in *. clear Ec.
-    assert (HR : R = [] \/ (last_nonspace R = true /\ sep_start R = true)).
-    { unfold R. destruct rest as [|a2 rest2]; [left; reflexivity|right].
-      assert (Hedges : forall pth x, In x (a2 :: rest2) ->
-                first_nonspace (prd pth x) = true /\ last_nonspace (prd pth x) = true).
-      { intros pth x Hx. apply prd_edges. rewrite Forall_forall in Wrest. apply Wrest. assumption. }
-      destruct (sep_core_edges_in prd p (S i) (a2 :: rest2) Hedges ltac:(congruence)) as (Cf & Cl & Cn).
-      split; [rewrite !app_assoc; rewrite last_nonspace_app by assumption; assumption|].
-      apply sep_start_space; [apply Hlay|reflexivity]. }
-    assert (HsepR : sep_start R = true) by (destruct HR as [->|[_ H]]; [reflexivity|exact H]).
-    assert (HrsR : rstrip R = R) by (destruct HR as [->|[H _]]; [reflexivity|apply rstrip_tok; exact H]).
-    assert (HVR : last_nonspace (V ++ R) = true).
-    { destruct HR as [->|[H _]]; [rewrite app_nil_r; assumption|].
-      rewrite last_nonspace_app; [assumption|]. intro E; rewrite E in H; discriminate. }
-    set (r0 := c1 ++ [c_colon] ++ c2 ++ V ++ R).
-    assert (Hr0l : last_nonspace r0 = true).
-    { unfold r0. rewrite !app_assoc. rewrite <- (app_assoc _ V R). rewrite last_nonspace_app; [assumption|].
-      destruct V; [congruence|discriminate]. }
-    assert (Hr0s : sep_start r0 = true) by (unfold r0; apply sep_start_space; [assumption|reflexivity]).
-    assert (HKf : first_nonspace K = true) by (unfold K, str_txt; destruct Hq as [->| ->]; reflexivity).
-    assert (HKn : K <> []) by (unfold K, str_txt; discriminate).
-    assert (Hcore_l : last_nonspace (K ++ r0) = true).
-    { rewrite last_nonspace_app; [assumption|]. unfold r0. destruct c1; discriminate. }
-    assert (Hcore_f : first_nonspace (K ++ r0) = true) by (rewrite first_nonspace_app by assumption; assumption).
-    cbn [parse_dict].
-    replace (b ++ (K ++ c1 ++ [c_colon] ++ c2 ++ V ++ R) ++ e) with (b ++ (K ++ r0) ++ e) in * by reflexivity.
-    assert (Es : strip (b ++ (K ++ r0) ++ e) = K ++ r0).
-    { rewrite strip_tok by assumption. rewrite rstrip_all_space by assumption. apply app_nil_r. }
-    rewrite Es.
-    assert (Hnn : K ++ r0 <> []) by (unfold K, str_txt; discriminate).
-    assert (Hfc : first_char (K ++ r0) = Ok q) by reflexivity.
-    rewrite (ltb_length_pos _ Hnn), Hfc. cbn [bind].
-    replace (q =? c_comma) with false by (destruct Hq as [->| ->]; reflexivity). rewrite andb_false_r.
-    assert (Wk : wf md (TStr q k)) by (cbn; repeat split; assumption).
-    pose proof (parse_token_exact lay Hlay md (TStr q k) [] [] r0 eq_refl Wk Hr0s) as Et.
-    cbn [QueryRef.txt kind app] in Et. fold K in Et. rewrite Et. clear Et.
-    cbn [bind]. unfold K at 1. rewrite parse_string_exact by assumption. cbn [bind].
-    rewrite (rstrip_tok r0 Hr0l).
-    assert (Es2 : strip r0 = [c_colon] ++ c2 ++ V ++ R).
-    { unfold r0. replace (c1 ++ [c_colon] ++ c2 ++ V ++ R) with (c1 ++ ([c_colon] ++ c2 ++ V ++ R) ++ [])
-        by (rewrite app_nil_r; reflexivity).
-      rewrite strip_tok; [apply app_nil_r|assumption|reflexivity|].
-      rewrite !app_assoc. rewrite <- (app_assoc _ V R). rewrite last_nonspace_app; [assumption|].
-      destruct V; [congruence|discriminate]. }
-    rewrite Es2. cbn [app]. replace (c_colon =? c_colon) with true by reflexivity. cbn [negb].
-    pose proof (parse_token_exact lay Hlay md v (0%nat :: pe) c2 R Hc2 Wv HsepR) as Et.
-    fold V in Et. rewrite Et. clear Et. cbn [bind]. rewrite HrsR.
-    unfold r0 in Hf. rewrite ?app_length in Hf. cbn [length] in Hf.
-    unfold V. rewrite (Pa Wv) by (fold V; lia). cbn [bind].
-    rewrite dict_set_fresh by (apply (Hka ((q, k), v)); left; reflexivity).
-    destruct Hkd as [Hk1 Hk2].
-    unfold R in *. destruct rest as [|a2 rest2].
-    - destruct f as [|f']; [lia|]. cbn. reflexivity.
-    - set (l1 := lay p (2 * i + 2)%nat) in *. set (l2 := lay p (2 * i + 3)%nat) in *.
-      destruct f as [|f']; [lia|].
-      assert (Wa2 : entry_wf a2) by (inversion Wrest; assumption).
-      destruct (prd_edges (S i :: p) a2 Wa2) as [A2f _].
-      assert (Hedges : forall pth x, In x (a2 :: rest2) ->
-                first_nonspace (prd pth x) = true /\ last_nonspace (prd pth x) = true).
-      { intros pth x Hx. apply prd_edges. rewrite Forall_forall in Wrest. apply Wrest. assumption. }
-      destruct (sep_core_edges_in prd p (S i) (a2 :: rest2) Hedges ltac:(congruence)) as (Cf & Cl & Cn).
-      set (core2 := sep_core lay prd p (S i) (a2 :: rest2)) in *.
-      destruct core2 as [|h0 x0] eqn:Ecore; [congruence|].
-      assert (Hh0 : is_space h0 = false) by (cbn in Cf; destruct (is_space h0); [discriminate|reflexivity]).
-      assert (Hh0c : (h0 =? c_comma) = false).
-      { unfold core2 in Ecore. cbn [sep_core] in Ecore. unfold prd at 1 in Ecore. unfold str_txt in Ecore.
-        cbn [app] in Ecore. injection Ecore as Eh _. destruct Wa2 as [([Eq|Eq] & _) _]; rewrite Eq in Eh; subst h0; reflexivity. }
-      replace (l1 ++ [c_comma] ++ l2 ++ h0 :: x0) with ((l1 ++ [c_comma] ++ l2) ++ (h0 :: x0) ++ []) 
-        by (rewrite app_nil_r; reassoc).
-      rewrite (parse_dict_skip_comma f' l1 l2 (h0 :: x0) [] h0 x0);
-        [|destruct acc; discriminate|apply Hlay|apply Hlay|reflexivity|reflexivity|assumption|assumption|assumption].
-      rewrite <- Ecore. unfold core2.
-      rewrite IH; [cbn [map]; rewrite <- app_assoc; reflexivity|assumption|assumption|congruence|apply Hlay|reflexivity|assumption| |].
-      + intros x Hx. rewrite map_app. cbn [map fst]. intro Hi. apply in_app_or in Hi. destruct Hi as [Hi|[Hi|[]]].
-        * apply (Hka x); [right; assumption|assumption].
-        * apply Hk1. rewrite Hi. apply (in_map (fun x => snd (fst x))). assumption.
-      + fold core2. rewrite Ecore. rewrite ?app_length in *. cbn [length] in *.
-        unfold K, str_txt in Hf. cbn [length] in Hf. lia.
-  Qed.
 End Loops.
